@@ -208,6 +208,12 @@ def finish(root, prop, tier, seed, results, wall, no_evidence=False):
     findings, _fixed = load_known(root)
     violations, known_seen, undecided = [], [], []
     os.makedirs(os.path.join(root, "out", "replay"), exist_ok=True)
+    for old in os.listdir(os.path.join(root, "out", "replay")):
+        if old.startswith(prop + "-"):
+            try:
+                os.remove(os.path.join(root, "out", "replay", old))
+            except OSError:
+                pass
     for rec in results:
         if rec["status"] == "undecided":
             undecided.append({"unit": rec.get("unit", rec["module"]), "reason": rec["reason"]})
